@@ -1374,6 +1374,68 @@ M('C04', 'ecdh-strict-flag', FL, C04_ECD, """        padder = PKCS7(64).unpadder
             data += padder.finalize()
         return data
 """, 'C04.7')
+# ---- follow-up 2: legacy SKEData prefix check (C04.2, second instance), passphrase -> key path (C04.9), warn-instead-of-raise, startswith compares
+C04_SED = """        iv = bytes(pt_prefix[:block_size_bytes])
+        del pt_prefix[:block_size_bytes]
+
+        ivl2 = bytes(pt_prefix[:2])
+
+        if not constant_time.bytes_eq(iv[-2:], ivl2):
+            raise PGPDecryptionError("Decryption failed")
+
+        pt = _decrypt(bytes(self.ct[block_size_bytes + 2:]), bytes(key), alg, iv=iv_resync)
+
+        return pt
+"""
+C04_PASS = """        if isinstance(passphrase, bytes):
+            hpass = passphrase
+        else:
+            hpass = passphrase.encode('utf-8')
+"""
+T('C04', 'twin-sed-offsets', PK, C04_SED, """        if pt_prefix[block_size_bytes - 2:block_size_bytes] != pt_prefix[block_size_bytes:block_size_bytes + 2]:
+            raise PGPDecryptionError("Decryption failed")
+
+        return _decrypt(bytes(self.ct[block_size_bytes + 2:]), bytes(key), alg, iv_resync)
+""")
+T('C04', 'twin-derive-key-str-first', FL, C04_PASS, """        if isinstance(passphrase, str):
+            hpass = passphrase.encode('utf-8', 'strict')
+        else:
+            hpass = passphrase
+""")
+T('C04', 'twin-passphrase-layers-spelling', PK, "    def unprotect(self, passphrase):\n        self.keymaterial.decrypt_keyblob(passphrase)", "    def unprotect(self, passphrase):\n        km = self.keymaterial\n        km.decrypt_keyblob(passphrase=passphrase)",
+  more=[(FL, "        kb = super(RSAPriv, self).decrypt_keyblob(passphrase)", "        kb = PrivKey.decrypt_keyblob(self, passphrase)")])
+M('C04', 'sed-prefix-check-dropped', PK, C04_SED, """        del pt_prefix
+
+        pt = _decrypt(bytes(self.ct[block_size_bytes + 2:]), bytes(key), alg, iv=iv_resync)
+
+        return pt
+""", 'C04.2')
+M('C04', 'sed-prefix-check-warns', PK, "        if not constant_time.bytes_eq(iv[-2:], ivl2):\n            raise PGPDecryptionError(\"Decryption failed\")\n\n        pt = _decrypt(bytes(self.ct[block_size_bytes + 2:])", "        if not constant_time.bytes_eq(iv[-2:], ivl2):\n            warnings.warn(\"Decryption may have failed\")\n\n        pt = _decrypt(bytes(self.ct[block_size_bytes + 2:])", 'C04.2')
+M('C04', 'sed-prefix-check-after-decrypt-kept', PK, C04_SED, """        iv = bytes(pt_prefix[:block_size_bytes])
+        del pt_prefix[:block_size_bytes]
+
+        ivl2 = bytes(pt_prefix[:2])
+
+        self.pt = _decrypt(bytes(self.ct[block_size_bytes + 2:]), bytes(key), alg, iv=iv_resync)
+
+        if not constant_time.bytes_eq(iv[-2:], ivl2):
+            raise PGPDecryptionError("Decryption failed")
+
+        return self.pt
+""", 'C04.2')
+M('C04', 'sed-prefix-one-octet', PK, "        ivl2 = bytes(pt_prefix[:2])\n\n        if not constant_time.bytes_eq(iv[-2:], ivl2):\n            raise PGPDecryptionError(\"Decryption failed\")\n\n        pt = _decrypt", "        ivl2 = bytes(pt_prefix[:1])\n\n        if not constant_time.bytes_eq(iv[-2:-1], ivl2):\n            raise PGPDecryptionError(\"Decryption failed\")\n\n        pt = _decrypt", 'C04.2')
+M('C04', 'derive-key-encode-ignore', FL, "            hpass = passphrase.encode('utf-8')\n\n        # salted, iterated S2K", "            hpass = passphrase.encode('utf-8', 'ignore')\n\n        # salted, iterated S2K", 'C04.9')
+M('C04', 'derive-key-latin1-replace', FL, "            hpass = passphrase.encode('utf-8')\n\n        # salted, iterated S2K", "            hpass = passphrase.encode('latin-1', errors='replace')\n\n        # salted, iterated S2K", 'C04.9')
+M('C04', 'derive-key-strip', FL, "            hpass = passphrase.encode('utf-8')\n\n        # salted, iterated S2K", "            hpass = passphrase.strip().encode('utf-8')\n\n        # salted, iterated S2K", 'C04.9')
+M('C04', 'derive-key-nfkc', FL, "            hpass = passphrase.encode('utf-8')\n\n        # salted, iterated S2K", "            import unicodedata\n            hpass = unicodedata.normalize('NFKC', passphrase).encode('utf-8')\n\n        # salted, iterated S2K", 'C04.9')
+M('C04', 'skesk-passphrase-stripped', PK, "        sk = self.s2k.derive_key(passphrase)\n        del passphrase\n\n        # if there is no ciphertext", "        sk = self.s2k.derive_key(passphrase.strip())\n        del passphrase\n\n        # if there is no ciphertext", 'C04.9')
+M('C04', 'unprotect-passphrase-coerced', PK, "    def unprotect(self, passphrase):\n        self.keymaterial.decrypt_keyblob(passphrase)", "    def unprotect(self, passphrase):\n        self.keymaterial.decrypt_keyblob(str(passphrase))", 'C04.9')
+M('C04', 'rsa-keyblob-passphrase-truncated', FL, "        kb = super(RSAPriv, self).decrypt_keyblob(passphrase)", "        kb = super(RSAPriv, self).decrypt_keyblob(passphrase[:64])", 'C04.9')
+M('C04', 'seipd-mdc-only-if-header', PK, "        if not constant_time.bytes_eq(bytes(pt[-22:]), _expected_mdcbytes):\n            raise PGPDecryptionError(\"Decryption failed\")  # pragma: no cover\n", "        if bytes(pt[-22:-20]) == b'\\xd3\\x14' and not constant_time.bytes_eq(bytes(pt[-22:]), _expected_mdcbytes):\n            raise PGPDecryptionError(\"Decryption failed\")  # pragma: no cover\n", 'C04.1')
+M('C04', 'ivcheck-warns', PK, "        if not constant_time.bytes_eq(iv[-2:], ivl2):\n            raise PGPDecryptionError(\"Decryption failed\")  # pragma: no cover\n\n        return pt", "        if not constant_time.bytes_eq(iv[-2:], ivl2):\n            warnings.warn(\"Decryption may have failed\")  # pragma: no cover\n\n        return pt", 'C04.2')
+M('C04', 'keyblob-sha1-warns', FL, "            # of the key material block\n            raise PGPDecryptionError(\"Passphrase was incorrect!\")\n\n        if self.s2k.usage == 255", "            # of the key material block\n            warnings.warn(\"Passphrase may be incorrect!\")\n\n        if self.s2k.usage == 255", 'C04.4')
+M('C04', 'seipd-mdc-startswith', PK, "        if not constant_time.bytes_eq(bytes(pt[-22:]), _expected_mdcbytes):\n            raise", "        if not _expected_mdcbytes.startswith(bytes(pt[-22:-1])):\n            raise", 'C04.1')
+M('C04', 'keyblob-sha1-startswith', FL, "        if self.s2k.usage == 254 and not pt[-20:] == hashlib.new('sha1', pt[:-20]).digest():", "        if self.s2k.usage == 254 and not hashlib.new('sha1', pt[:-20]).digest().startswith(bytes(pt[-20:-16])):", 'C04.4')
 
 # =============================================================================================== C03
 M('C03', 'checksum-65535', PK, "        m += self.int_to_bytes(sum(bytearray(symkey)) % 65536, 2)", "        m += self.int_to_bytes(sum(bytearray(symkey)) % 65535, 2)", 'C03.1')
